@@ -434,6 +434,13 @@ func coqImage(img map[string][]byte, in *interner) string {
 // ---------------------------------------------------------------- driver
 
 func runC15(c *Ctx) {
+	// a store that no longer behaves like the model can make the harness itself trip (an unexpected
+	// error, an index out of range): report that as a broken correspondence, not as a crash
+	defer func() {
+		if r := recover(); r != nil {
+			c.mismatch("harness-panic", fmt.Sprintf("the harness could not drive the store as the model expects: %v", r), nil)
+		}
+	}()
 	c.rep.Rule = "histories of 3-7 engine operations on FileSystemDataStore as both stores: ingest+Flush, flushes failed by a real os error " +
 		"(EMFILE at reservation/temp create/directory fsync, handle closed before Sync, rename in an immutable directory, a short write), merges; " +
 		"crash points = every os-call boundary of the history (all in thorough, every one for process crashes and sampled for power loss in quick); " +
@@ -447,7 +454,6 @@ func runC15(c *Ctx) {
 	fixed := storeHasFix(scratch)
 	sh := c.newShard("f15", runnerFC, "caseC", "mismatchesC", "violationsC")
 	sh.limit = 1
-	sh.prelude = []string{"Open Scope nat_scope."}
 	nHist := c.pick(14, 200)
 	for i := 0; i < nHist; i++ {
 		c15History(c, sh, filepath.Join(scratch, fmt.Sprintf("h%d", i)), i, fixed)
@@ -706,7 +712,7 @@ func c15History(c *Ctx, sh *shard, dir string, hi int, fixed bool) {
 		probeDesc = probeDesc[:40]
 	}
 	desc["first_probes"] = probeDesc
-	sh.add(c, term, desc)
+	sh.add(c, "("+term+")%nat", desc)
 	c.dist("c15_history", fmt.Sprintf("merge=%v", h.hasMerge))
 	if goViol != "" {
 		c.violation(goSig, goViol, desc)
